@@ -6,6 +6,7 @@ require (
 	github.com/IrineSistiana/mosdns/v5 v5.0.0
 	github.com/anishathalye/porcupine v1.3.0
 	github.com/miekg/dns v1.1.62
+	go.uber.org/zap v1.27.0
 	google.golang.org/protobuf v1.35.2
 )
 
@@ -36,7 +37,6 @@ require (
 	github.com/spf13/viper v1.19.0 // indirect
 	github.com/subosito/gotenv v1.6.0 // indirect
 	go.uber.org/multierr v1.11.0 // indirect
-	go.uber.org/zap v1.27.0 // indirect
 	golang.org/x/crypto v0.30.0 // indirect
 	golang.org/x/exp v0.0.0-20241210194714-1829a127f884 // indirect
 	golang.org/x/net v0.32.0 // indirect
